@@ -105,6 +105,9 @@ func init() {
 		checkListParse(p, r)
 		// the C reader inflates every log block: the Go side never writes (or accepts) a stored one
 		checkLogDeflated(p, r)
+		// the C reader visits only the ref blocks an object record lists: the Go writer
+		// omits a position list only when it does not fit (as the C writer does)
+		checkObjListWhole(p, r)
 		r.Engines = []string{"layout", "pathsim"}
 		r.Samples = append(r.Samples, map[string]interface{}{"c_layout": c})
 		r.Explanation = "The table of format constants and layouts extracted from the C sources (macros through clang -E -dM, header_size/footer_size switch arms, the put_be/get_be sequences of the header writer, footer writer and footer parser, and the literals of stack.c through clang's JSON AST and preprocessor; parsed only, never compiled or run) equals, entry by entry, the table extracted from the Go sources by constant evaluation, type structure and SSA patterns."
